@@ -577,10 +577,19 @@ class Runner:
         self.hist = {}
         self.searched = False
 
-    def violation(self, what, payload, key, no_input=False):
+    def violation(self, what, payload, key, no_input=False, budget=None):
         if key in self.reported:
             return
         self.reported.add(key)
+        if budget:
+            # own small budget (a broken obligation of the document leg must not be crowded out by the
+            # failures the same fault causes in the earlier legs)
+            setattr(self, budget, getattr(self, budget, 0) + 1)
+            if getattr(self, budget) > 2:
+                self.stats["further_failures_not_reported"] = self.stats.get("further_failures_not_reported", 0) + 1
+                return
+            self.ctx.violation(what, payload, no_input=no_input)
+            return
         # enough replays; the rest is counted only (separate budgets, so that tie disagreements without
         # an input never crowd out concrete failing inputs)
         kind = "n_noinput" if no_input else "n_concrete"
@@ -983,6 +992,8 @@ def run(ctx):
     # 4a. boundary sizes and parser path independence
     size_stats = size_boundary_leg(ctx, r, model_ok)
     list_stats = list_family_leg(ctx, r, model_ok)
+    # 4a'. the document of an expression, before the layout engine
+    doc_stats = doc_leg(ctx, r, model_ok, rng.fork())
     # 4b. the command-line formatter on a scratch project
     cli_stats = cli_leg(ctx, r, rng.fork())
     # 5. one dedicated probe per open finding
@@ -1019,16 +1030,18 @@ def run(ctx):
         "full_strength_theorems": ["roundtrip_expr_total (every expression: parseE (printE e) = some (regroup e))",
                                    "format_preserves_meaning / eval_regroup (every expression, every interpretation: same value/trap and event order)",
                                    "roundtrip_str (every lexed string literal)", "roundtrip_pattern (every pattern)", "paren_insensitive", "parseFuel_stable",
-                                   "roundtrip_expr_in_context", "former_witnesses_roundtrip", "member_name_before_lt"],
-        "composed_with_C09": composed, "cli_leg": cli_stats, "size_boundary_leg": size_stats, "list_family_leg": list_stats,
+                                   "roundtrip_expr_in_context", "former_witnesses_roundtrip", "member_name_before_lt",
+                                   "doc_unions_agree / layout_tokens_every_width / roundtrip_every_width (Props/C08b.lean: every layout alternative of every Union of the expression's document is the token sequence printE e, at every width)"],
+        "composed_with_C09": composed, "cli_leg": cli_stats, "size_boundary_leg": size_stats, "list_family_leg": list_stats, "doc_leg": doc_stats,
         "legacy": "Model/Fmt.lean (round-2 fragment with opaque call arguments / if / match; theorems roundtrip_expr_partial, paren_insensitive used by C09b / C13b) is executed next to the full model on every line in its fragment (stats legacy_model_*)",
         "pending": ["still opaque: identifiers/literals, member names with their explicit type arguments, the type annotation of a `let`, lambda parameter lists; patterns are modelled separately (Model/FmtPat.lean, roundtrip_pattern) and enter the expression model as one unit",
                     "`else if` chains, if-let guards, declarations, types, comments (reparse oracle only)",
-                    "a Doc-producing version of printE (so that tokens_at_one_width_suffice applies to the model's own document rather than to any document agreeing with it at one width)"]})
+                    "docOf (Model/FmtDoc.lean) is the document of an expression without comments; its leaf documents (patterns, annotations, lambda parameters, type arguments) are built by the driver and checked for Leaves.Ok at run time (agreeB), not proved"]})
     ctx.assumptions += ["valid UTF-8 input", "int literal tokens in i32 range (out-of-range literals are C06)",
-                        "token-level statement: the layout engine only inserts blanks/line breaks between tokens (C09); checked empirically here at widths 5..200"]
+                        "the layout engine is C09's model Model/Doc.lean (tied by C09's protocols and, for expression documents, by the fmt-doc layout comparison here)"]
     return ctx.finish(res, trusted=common.TRUSTED_COMMON + [
         "hand-written models Model/FmtFull.lean (printer arms literal/id, tuple, block with let / expression statements and optional final expression, FieldAccess/MethodAccess/Call chains with argument lists, Unary, Binary incl. ends_with_member_name, IfElse with block branches, Match with cases, Lambda; parser parse_expression/parse_match/parse_if_else, parse_disjunction..parse_factor, parse_unary_expression, parse_function_call_or_field_access incl. the `<`-after-member-name rule and argument lists, parse_base_expression with nested-expression unwrapping, tuples, blocks and lambdas, parse_block / parse_statement), Model/FmtPat.lean (matching_pattern_to_document vs pattern_parser), Model/FmtEval.lean (evaluation semantics) and Model/Fmt.lean (tables; lex_str_lit_opt, unescape_quotes, process_raw_token)",
+        "hand-written model Model/FmtDoc.lean (create_doc without comments) tied node by node by protocol fmt-doc; the driver-built leaf documents (Driver/C08.lean docO, tyDoc, commaSepD)",
         "driver-side character lexer and token grouping of the fragment (Driver/C08.lean lexWords/group: member names with optional `<T>`, match patterns `U(v) ->`, `U ->`, `_ ->`, lambda parameter lists as single units) and the tree dump of harness/src/bin/c08.rs (erases locations, comments, resolved module references, field/tag orders; imports normalised by merge+sort)",
         "not modelled (reparse oracle only): declarations, types, else-if chains, if-let, comments"])
 
@@ -1180,6 +1193,173 @@ def list_family_leg(ctx, r, model_ok):
     return st
 
 
+# ---------------------------------------------------------------- fmt-doc: the document before the layout engine
+
+WS = set([9, 10, 11, 12, 13, 32, 0x85, 0xA0, 0x1680, 0x2028, 0x2029, 0x202F, 0x205F, 0x3000]) | set(range(0x2000, 0x200B))
+
+
+def nonws(text):
+    return "".join(c for c in text if ord(c) not in WS)
+
+
+def doc_read(dump):
+    """(text, agree, witness) of a document in the printer hook's prefix notation: the non-whitespace
+    text of the preferred branches (`val textKey`), whether both branches of every Union have the same
+    text (`Agree textKey`), and the two texts of the first Union that does not."""
+    toks = dump.split(" ")
+    pos = [0]
+    wit = []
+
+    def unhex(h):
+        return "" if h == "-" else bytes.fromhex(h).decode("utf-8", "replace")
+
+    def rd():
+        t = toks[pos[0]]; pos[0] += 1
+        if t in ("N", "L", "LN", "LH"):
+            return "", True
+        if t in ("T", "S"):
+            h = toks[pos[0]]; pos[0] += 1
+            return nonws(unhex(h)), True
+        if t == "I":
+            pos[0] += 1
+            return rd()
+        if t == "C":
+            a, oa = rd(); b, ob = rd()
+            return a + b, oa and ob
+        if t == "U":
+            a, oa = rd(); b, ob = rd()
+            if a != b and not wit:
+                wit.append((a, b))
+            return a, oa and ob and a == b
+        raise ValueError("bad document node " + t)
+    import sys
+    sys.setrecursionlimit(max(sys.getrecursionlimit(), 20000))
+    text, ok = rd()
+    if pos[0] != len(toks):
+        raise ValueError("trailing document tokens")
+    return text, ok, (wit[0] if wit else None)
+
+
+def doc_family():
+    """deterministic texts whose documents have the most layout alternatives: dotted chains of every
+    length with and without calls / explicit type arguments / parenthesised bases, nested in arguments,
+    operands, conditions, branches and case bodies; if-else with and without statements; match."""
+    names = ["alpha", "betaBeta", "c", "deltaDeltaDelta", "e"]
+    out = []
+    for n in range(1, 5):
+        for calls in range(0, 1 << min(n, 3)):
+            for base in ("a", "Abc", "(a + b)", "f(x)", "(-a)", "{ a }", "(a, b)", "((x) -> x)", "(if a { b } else { c })"):
+                ch = base
+                for i in range(n):
+                    ch += "." + names[i]
+                    if n == 3 and i == 1 and calls == 0:
+                        ch += "<int>"
+                    if calls >> min(i, 2) & 1:
+                        ch += "(" + ", ".join(names[:i]) + ")"
+                out.append(ch)
+    chains = ["a.b", "a.b.c(d)", "aaaa.bbbb(cccc).dddd(eeee, ffff).gggg", "f(x)(y)", "f()", "f().g()", "a.b<Foo>(c).d"]
+    for c in chains:
+        out += [f"f({c}, {c})", f"{c} + {c} * {c}", f"!{c}", f"-{c}", f"({c}) < {c}", f"({c}, {c})", f"if {c} {{ {c} }} else {{ {c} }}",
+                f"match {c} {{ Foo(x, _) -> {c}, Bar -> {c}, _ -> {{ {c} }} }}", f"(x, y: int) -> {c}", f"{{ let v = {c}; {c}; {c} }}",
+                f"{{ let (p, _): Foo = {c}; }}", f"{{ {c} }}", f"{c}.m({c}).n", f"{c} && ({c} || {c})", f"{c} + ({c} + {c})"]
+    out += ["if a { b } else { c }", "if a { let v = 1; v } else { w; }", "if a { } else { }", "if a { b; } else { { c } }",
+            "if a + b < c { if d { e } else { f } } else { match g { A -> 1, B(x) -> x } }",
+            "match x { A | B(_) -> 1, { f, g as (h, _) } -> 2, (p, q) -> 3 }", "{ }", "{ a; }", "{ let { a, b as c }: Foo = x; a + c }",
+            "() -> 1", "(a) -> (b) -> a + b", "((a) -> a)(1)", "(a, b, c)", "((a, b), (c, d))", "true && false || this.x", "-2147483648", "- 2147483648 + 1"]
+    return out
+
+
+def doc_leg(ctx, r, model_ok, rng):
+    """protocol `fmt-doc`: (1) on the real document alone — both branches of every Union read the same
+    text and that text is what the formatter prints at the tested width (the obligation proved for the
+    model as `doc_unions_agree` / `layout_tokens_every_width`); (2) correspondence — the real document
+    of `create_doc` equals `docOf` of Model/FmtDoc.lean node by node, and the model's layout engine prints
+    it exactly like the real one."""
+    texts = [(w, t) for t in doc_family() for w in (5, 20, 40, 100)]
+    texts += [(w, render(t)) for t in pair_enumeration() for w in (100, 12)]
+    for _ in range(ctx.scale(3000, 40000)):
+        g = rng.fork()
+        t = gen_tree(g, g.range(1, 5), g.chance(3, 5))
+        texts.append((g.pick([5, 10, 20, 30, 40, 60, 80, 100, 200]), render(t, g) if g.chance(1, 2) else render(t)))
+    lines = [f"X {w} {hexs(t)}" for w, t in texts]
+    st = {"lines": len(lines), "documents_checked": 0, "unions": 0, "documents_equal_to_model": 0, "layouts_equal_to_model": 0,
+          "outside_fragment": 0, "perr": 0, "tree_differs": 0}
+    for i0 in range(0, len(lines), 3000):
+        chunk = lines[i0:i0 + 3000]
+        if model_ok:
+            impl, mod = common.run_pair("C08", chunk)
+        else:
+            _, impl, _ = common.run_exec(common.harness_bin("C08"), [], chunk)
+            mod = [None] * len(chunk)
+        for i, l in enumerate(chunk):
+            a = impl[i] if i < len(impl) else "<missing>"
+            m = mod[i] if i < len(mod) else "<missing>"
+            w, src = texts[i0 + i]
+            payload = {"protocol": "fmt-doc", "op": l, "source": src, "width": w, "impl": a[:3000], "model": (m or "")[:3000]}
+            if a == "perr":
+                st["perr"] += 1
+                continue
+            pa = a.split(";")
+            if a.startswith("panic:") or a.startswith("<") or len(pa) != 3:
+                r.violation("building the document of an expression panicked or the harness failed: " + a[:80], payload, ("xd", l))
+                continue
+            t0, doc, out = pa[0], pa[1], common.unhex(pa[2]).decode("utf-8", "replace")
+            # ---- (1) the obligation on the real document
+            try:
+                text, agree, wit = doc_read(doc)
+            except Exception as ex:
+                r.violation(f"unreadable document dump: {ex!r}", payload, ("xd", l), no_input=True)
+                continue
+            st["documents_checked"] += 1
+            st["unions"] += doc.count("U ") + (1 if doc.startswith("U") else 0) - (1 if doc.startswith("U ") else 0)
+            if not agree or text != nonws(out):
+                payload["broken"] = ("obligation `every layout alternative of a Union prints the same tokens` (doc_unions_agree, "
+                                     "layout_tokens_every_width, roundtrip_every_width of Props/C08b.lean) is false for the real document")
+                payload["union_branches"] = list(wit) if wit else None
+                payload["document_text"], payload["printed_text"] = text, nonws(out)
+                what = (f"the two layouts of a Union in the document of `{src}` differ: `{wit[0]}` vs `{wit[1]}`" if wit else
+                        f"the document of `{src}` reads `{text}` but width {w} prints `{nonws(out)}`")
+                st["union_disagreements"] = st.get("union_disagreements", 0) + 1
+                if st["union_disagreements"] <= 12:
+                    # look for a width at which the divergence reaches the reparse oracle (concrete failing input)
+                    r.expr_batch([f"E {w2} {hexs(src)}" for w2 in sorted({w, 1, 5, 10, 15, 20, 30, 40, 60, 80, 100, 200})],
+                                 "widths after a Union disagreement", model=False)
+                r.violation("the printed tokens depend on the line width: " + what, payload, ("xu", src), no_input=True, budget="n_doc_obligation")
+                continue
+            # ---- (2) correspondence with Model/FmtDoc.lean
+            if m is None:
+                continue
+            if m == "perr":
+                st["outside_fragment"] += 1
+                continue
+            pm = m.split(";")
+            if len(pm) != 5:
+                r.violation("driver failed on an X line: " + m[:80], payload, ("xm", l), no_input=True)
+                continue
+            if pm[0] != t0:
+                st["tree_differs"] += 1      # a parse disagreement: reported by the fmt-expr stream
+                continue
+            payload["broken"] = ("correspondence `fmt-doc` (Model/FmtDoc.lean `docOf` vs source_printer.rs `create_doc`): doc_unions_agree / "
+                                 "layout_tokens_every_width / roundtrip_every_width no longer speak about this code")
+            if pm[1] != doc or pm[2] != "lv=ok":
+                da, dm = doc.split(" "), pm[1].split(" ")
+                k = next((j for j in range(min(len(da), len(dm))) if da[j] != dm[j]), min(len(da), len(dm)))
+                payload["first_difference"] = {"at": k, "impl": " ".join(da[max(0, k - 6):k + 10]), "model": " ".join(dm[max(0, k - 6):k + 10])}
+                r.violation(f"model/implementation disagreement on protocol fmt-doc for `{src}`: the document of create_doc differs from docOf at node {k}"
+                            + ("" if pm[2] == "lv=ok" else " (a leaf document has disagreeing Unions)"), payload, ("xc", src), no_input=True, budget="n_doc_corr")
+                continue
+            st["documents_equal_to_model"] += 1
+            mchars = "" if pm[3] == "-" else common.unhex(pm[3]).decode("utf-8", "replace")
+            mout = "" if pm[4] == "-" else common.unhex(pm[4]).decode("utf-8", "replace")
+            if mout != out or mchars != text:
+                payload["model_layout"], payload["impl_layout"] = mout, out
+                r.violation(f"fmt-doc: same document, different layout at width {w} for `{src}` (Model/Doc.lean vs prettier.rs) or different token text",
+                            payload, ("xl", src), no_input=True, budget="n_doc_corr")
+                continue
+            st["layouts_equal_to_model"] += 1
+    return st
+
+
 CLI_TARGET = os.path.join(common.HARNESS, "target", "cli")
 
 
@@ -1291,6 +1471,21 @@ def replay(ctx, path):
     common.build_harness("C08"); common.build_lean(["drv-c08"])
     data = json.load(open(path))
     p = data["replay"]
+    if "op" in p and p["op"].startswith("X "):
+        impl, model = common.run_pair("C08", [p["op"]])
+        a, m = impl[0], model[0]
+        print("source:", p.get("source")); print("  impl :", a[:2000]); print("  model:", m[:2000])
+        pa, pm = a.split(";"), m.split(";")
+        if len(pa) != 3:
+            return 1
+        text, agree, wit = doc_read(pa[1])
+        out = nonws(common.unhex(pa[2]).decode("utf-8", "replace"))
+        bad = False
+        if not agree or text != out:
+            print("  OBLIGATION BROKEN: a Union of the real document has two different texts:", wit, "| document", text, "| printed", out); bad = True
+        if len(pm) == 5 and pm[0] == pa[0] and (pm[1] != pa[1] or pm[2] != "lv=ok" or pm[4] != pa[2]):
+            print("  DISAGREEMENT model vs implementation (document or layout)"); bad = True
+        return 1 if bad else 0
     if "op" in p:
         lines = [p["op"]]
         if isinstance(p.get("shrunk"), dict) and p["shrunk"].get("source"):
